@@ -93,6 +93,9 @@ def generate(rng, tier):
         # a typed @property: its value is computed from a payload and converted to the declared type after the fields
         pt = tdsl.gen_scalar(rng, rule_leaves=RL)
         plan["pprop"] = {"type": pt, "value": tdsl.gen_value(rng, pt, pool, positions, ("pr",)), "hook": rng.random() < 0.5, "second": rng.random() < 0.4}
+        if rng.random() < 0.4:
+            pt3 = tdsl.gen_scalar(rng, rule_leaves=RL)
+            plan["pprop"]["third"] = {"type": pt3, "value": tdsl.gen_value(rng, pt3, pool, positions, ("pr3",))}
     if kind == "func":
         plan["addition"] = rng.choice([None, "leaf"])   # **kwargs: Leaf or none
         # the type of the surplus positional values: a harness leaf or a constrained (Rule) leaf
@@ -174,6 +177,15 @@ def build(plan, collect, faulted=True):
                     return 1
                 pr2.__annotations__ = {"return": int}
                 ns["pr2"] = property(_F(on_error="throw")(pr2))
+            if plan["pprop"].get("third"):
+                # a further typed property of its own: a failing item like any other
+                PT3 = tdsl.build_type(plan["pprop"]["third"]["type"])
+                pv3 = plan["pprop"]["third"]["value"]
+
+                def pr3(self) -> PT3:
+                    return tdsl.build_value(pv3)
+                pr3.__annotations__ = {"return": PT3}
+                ns["pr3"] = property(pr3)
             if plan["pprop"].get("hook"):
                 # the user's __validate__ reads the property: it only ever runs on an instance that parsed
                 def __validate__(self):
@@ -334,6 +346,9 @@ def ground_truth(plan, stats):
     if not G and plan.get("pprop") and _item_fails(plan["pprop"]["type"], tdsl.build_value(plan["pprop"]["value"])):
         G.add("pr")
         stats["probe:property_output_fault"] += 1
+    if not (G - {"pr"}) and plan.get("pprop") and plan["pprop"].get("third") and _item_fails(plan["pprop"]["third"]["type"], tdsl.build_value(plan["pprop"]["third"]["value"])):
+        # (fail-fast stops at the first failing output; collecting names both)
+        G.add("pr3")
     return G
 
 
